@@ -48,4 +48,12 @@ VARIANTS = [
       find='return fmt.Errorf("failed to close temp file: %w", err)', replace='return fmt.Errorf("closing temp file: %w", err)'),
  dict(name='benign-sync-before-close', file=F, expect='silent',
       find='\t// close before moving\n', replace='\tif err := tempFile.Sync(); err != nil {\n\t\treturn fmt.Errorf("failed to sync temp file: %w", err)\n\t}\n'),
+ dict(name='pooled-encode-buffer', file=C, expect='flagged(writer/content-owned)',
+      edits=[(C, 'import (\n\t"context"\n', 'import (\n\t"bytes"\n\t"sync"\n\t"context"\n'),
+             (C, '// NewFileCache creates a FileCache', 'var encodePool = sync.Pool{New: func() any { return new(bytes.Buffer) }}\n\n// NewFileCache creates a FileCache'),
+             (C, '\tcontentBytes, err := json.Marshal(content)\n', '\tbuf := encodePool.Get().(*bytes.Buffer)\n\tdefer encodePool.Put(buf)\n\tbuf.Reset()\n\terr := json.NewEncoder(buf).Encode(content)\n\tcontentBytes := buf.Bytes()\n')]),
+ dict(name='benign-local-encode-buffer', file=C, expect='silent',
+      edits=[(C, 'import (\n\t"context"\n', 'import (\n\t"bytes"\n\t"context"\n'),
+             (C, '\tcontentBytes, err := json.Marshal(content)\n', '\tvar buf bytes.Buffer\n\terr := json.NewEncoder(&buf).Encode(content)\n\tcontentBytes := buf.Bytes()\n')],
+      why='a buffer local to the call is owned by the call'),
 ]
